@@ -1079,6 +1079,11 @@ def check(program, rep):
     import sys
     rep.assume("interpreter = %d.%d (the one the suite runs under)" %
                sys.version_info[:2])
+    # arguments handed to package functions under the wrong name / same-
+    # named optional parameters not passed on (NAMELINK, DESIGN.md 9.13)
+    from .. import namelink as _nl
+    rep.guard("C18-R7", _nl.rule, program, rep, "C18-R7",
+              [m for m in sorted(program.modules) if m.startswith("rig.machine_control")])
     return finish(rep, program, EXPLANATION, NOT_DECIDED,
                   trusted=["role table in roles.py and the EXEMPT / "
                            "ALLOWED_CONSTS tables in rules/C18.py (one "
